@@ -1,7 +1,7 @@
 """Shared part of the PTG checks (C01, C23; reusable by C02/C16/C24/C15/C22).
 
 A case line is   <mode> <config> <config> … | <program in the format of tools/jdfgen.py to_case>
-with  config = scheduler:threads[:startup_iter:startup_chunk[:again_max[:repetitions]]]   ('-' = default iter/chunk)
+with  config = scheduler:threads[:startup_iter:startup_chunk[:again_max[:repetitions[:slow_us:slow_class]]]]   ('-' = default iter/chunk)
 The model side (ocaml/d_ptg.ml) ignores the configurations.  The implementation side is
 driven from Python (run_impl is overridden): for every case the JDF is written, compiled by
 parsec-ptgpp (built from the repository under test), compiled and linked with
@@ -33,9 +33,12 @@ def link_flags():
 
 
 def parse_config(s):
-    """scheduler:threads[:iter:chunk[:again[:reps]]]  ('-' for iter/chunk = runtime default)"""
+    """scheduler:threads[:iter:chunk[:again[:reps[:slow_us:slow_class]]]]  ('-' for iter/chunk = runtime default)"""
     w = s.split(":")
-    d = {"sched": w[0], "threads": int(w[1]) if len(w) > 1 else 1, "iter": None, "chunk": None, "again": 0, "reps": 1}
+    d = {"sched": w[0], "threads": int(w[1]) if len(w) > 1 else 1, "iter": None, "chunk": None, "again": 0, "reps": 1,
+         "slow": None}
+    if len(w) > 7:
+        d["slow"] = (int(w[6]), w[7])
     if len(w) > 3 and w[2] != "-" and w[3] != "-":
         d["iter"], d["chunk"] = int(w[2]), int(w[3])
     if len(w) > 4:
@@ -51,6 +54,8 @@ def config_args(cfg, seed=1):
         a += ["--again", str(seed), str(cfg["again"])]
     if cfg.get("reps", 1) > 1:
         a += ["--reps", str(cfg["reps"])]
+    if cfg.get("slow"):
+        a += ["--slow", str(cfg["slow"][0]), cfg["slow"][1]]
     a += ["--cfg", str(cfg["threads"]), "--mca", "mca_sched", cfg["sched"]]
     if cfg["iter"] is not None:
         a += ["--mca", "task_startup_iter", str(cfg["iter"]), "--mca", "task_startup_chunk", str(cfg["chunk"])]
